@@ -76,6 +76,7 @@ mutual
       if D.contains lim && D.contains step && allIn D (readsE init) && (scopedStmts (idx :: i :: D) body).isSome
       then some (idx :: i :: D) else none
     | .switchS e cases => if allIn D (readsE e) && scopedCases D cases then some D else none
+    | .ifZero idx body => if D.contains idx && (scopedStmts D body).isSome then some D else none
     | .ifPos lim body els =>
       if D.contains lim && (scopedStmts D body).isSome && (scopedStmts D els).isSome then some D else none
     | .call buf _ base params =>
@@ -488,7 +489,27 @@ mutual
       simp [foreachStmts, JsStmts.one, scopedStmts, scopedStmt, toAst_reads D sc hc list j hj, h4]
     | .forc p v list body (some ie), buf, sc, r, D, h, hs, hc, hb => by
       unfold toCmd at h
-      have h := (loopJoin_some h).resolve_right (by intro h'; have := (rangeJoin_some h').2.1; simp at this)
+      rcases loopJoin_ie_some h with h | ⟨r0, re, hr0, hre, rfl⟩
+      case inr =>
+        obtain ⟨hv, _, args, l, c, jl, ji, rbv, pc, _, _, _, _, hjl, hji, hrb, rfl⟩ := rangeJoin_some hr0
+        obtain ⟨p1, p2, p3⟩ := scOk_pushForRange hs v hv
+        obtain ⟨_, b2, b3⟩ := toBody_scope ae body buf _ rbv hrb p1
+        have hst : rbv.2.pop.stack = sc.stack := by simp only [Scope.pop]; rw [b2, p2]
+        have hn : sc.n ≤ rbv.2.pop.n := by simp only [Scope.pop]; omega
+        have hs' : ScOk rbv.2.pop := scOk_of_stack hs hst hn
+        obtain ⟨c1, _⟩ := toBlock_scope ae ie buf _ re hre hs'
+        have hc2 := covers_pushForRange hc v
+        obtain ⟨D4, h4, _, _⟩ := scoped_body body buf _ rbv _ hrb p1 hc2
+          (Sub.cons _ _ _ (Sub.cons _ _ _ (Sub.cons _ _ _ (Sub.cons _ _ _ hb))))
+        have hsub2 : Sub D ((sc.pushForRange v).1.2.2.1 :: (sc.pushForRange v).1.2.1 :: D) := (Sub.cons _ D).trans (Sub.cons _ _)
+        have hsub : Sub D ((sc.pushForRange v).1.2.2.2 :: (sc.pushForRange v).1.1 :: (sc.pushForRange v).1.2.2.1 ::
+            (sc.pushForRange v).1.2.1 :: D) := (hsub2.trans (Sub.cons _ _)).trans (Sub.cons _ _)
+        obtain ⟨D5, h5, _⟩ := scoped_block ie buf _ re _ hre hs' ((hc.mono hsub).stack hst) (hsub _ hb)
+        refine ⟨_, ?_, (hc.mono hsub).stack (c1.trans hst), hsub⟩
+        have r1 := toAst_reads D sc hc l jl hjl
+        have r2 := allIn_mono (toAst_reads D sc hc _ ji hji) hsub2
+        rw [scopedStmts_append]
+        simp [rangeStmts, JsStmts.one, scopedStmts, scopedStmt, r1, r2, h4, h5, readsE, allIn_nil]
       obtain ⟨hv, _, j, rbv, hj, hrb, he⟩ := forcJoin_some h
       simp only at he
       obtain ⟨re, hre, rfl⟩ := he
